@@ -93,7 +93,7 @@ func mkKeys(K, L int, bits uint8) [][]byte {
 		}
 		d := vrt.Bytes("digest", L)
 		pfx := uint32(d[0]) | uint32(d[1])<<8 | uint32(d[2])<<16 | uint32(d[3])<<24
-		vrt.Assume(pfx&mask == bvals[vrt.Choose("bucket", 2)])
+		vrt.Assume(pfx&mask == bvals[vrt.Choose("bucket", vrt.Param("bucketchoices", 2))])
 		keys[i] = append([]byte{0x00, byte(L)}, d...)
 		if vrt.Param("cidprimary", 0) != 0 {
 			// CIDv1, raw codec, identity multihash
